@@ -11,7 +11,7 @@ NOTE = ("Trusted base: rustc nightly front end + MIR builder, the flacfacts expo
 
 # id -> (technique, text, design_ref)   (claimed properties)
 CLAIMED = {
-    "C12": ("ERRDISC: type-directed error-discipline analysis of every sink call site in MIR",
+    "C12": ("ERRDISC: type-directed error-discipline analysis of every sink call site in MIR + PREFIX/short-circuit (first consumer of every sink-error Result is `?`/return)",
             "Every call site producing Result<_, S::Error|OutputError<S>> for a caller-supplied sink S is shown to "
             "propagate the error to the return place; none is unwrapped, swallowed or dead. Exhaustive over call "
             "sites, which is what 'for every k-th sink operation' quantifies over.", "4/C12"),
@@ -27,14 +27,14 @@ CLAIMED = {
             "constructed on the Ok edge of verify() or in an unsafe fn, and six violating client programs fail to "
             "compile (twins compile). Decides 'accepts iff in range'; not 'accepted configs never panic'.", "4/C07"),
     "C16": ("CONSTARG + MPT + operand dataflow on the CRC verification sites; ERRDISC on nom::Err; PANICSITE "
-            "enumeration from parser::stream with a per-site SAFE table",
+            "enumeration from parser::stream with a per-site SAFE table + FRAMING (frames read until end of input with CRC checks on, no error-swallowing combinator)",
             "CRC-8/CRC-16 verification is shown to be unconditional on the stream path, on every Ok path, an "
             "equality of parsed and computed value, spanning the whole header/frame, with degree-8/16 generators "
             "(so every burst <= 8/16 bits is detected); all explicit panic constructs reachable from the stream "
             "parser are enumerated and individually discharged; implicit (arithmetic/index) panics are not decided.",
             "4/C16"),
     "C18": ("PANICSITE (explicit panic constructs from constructors/Verify impls, SAFE table with machine-checked "
-            "premises) + DIVGUARD + CASTCHECK + block-size lower-bound RANGE",
+            "premises) + DIVGUARD + CASTCHECK + block-size lower-bound RANGE + RANGE/twos-complement (sample checks are the exact W-bit range)",
             "Narrow: every explicit panic construct, every division by a runtime value, every narrowing cast of a "
             "constructor argument and every zero-able block size in the constructor/verify universe is an obligation "
             "that is discharged structurally (dominating `?`-propagated range check) or reported. Overflow/shift/"
@@ -64,7 +64,7 @@ CLAIMED = {
             "keys are injective in the lookup parameters, and no storage is re-entered while borrowed. Complete "
             "overwrite of length-set buffers before reads is not decided.", "4/C10"),
     "C11": ("SHIFTGUARD (dominating zero-width guard for `BITS - n` shifts, call-site guards for private helpers) + "
-            "CALLSET + SIBLING + compile-fail witnesses for the sealed operand traits",
+            "CALLSET + SIBLING + FILLSTATE (storage growth dominated by a read of the word-level fill) + GROWTH/ceil (resize amount = ceil(bits/word) on a full period of the extracted summary) + compile-fail witnesses for the sealed operand traits",
             "Narrow: zero-width operands are guarded in every sink implementation, default methods are built only "
             "from required ones, both write_bytes_aligned overrides align first, and foreign operand types cannot be "
             "written. Bit-exactness of the shift/carry arithmetic is numerical and not decided.", "4/C11"),
@@ -91,7 +91,7 @@ CLAIMED = {
             "CRC checks on); decoded orders feed both warm-up and residual readers; the decoder predicts in 64 bits. "
             "Value-level inversion and Decode arithmetic are not decided.", "4/C15"),
     "C19": ("ATTR: dataflow over the serde-derive generated Serialize/Deserialize/Visitor MIR bodies (absent-field "
-            "arms, key tables, tag strings) + DEFAULTS: Default::default aggregates vs the constants the docs cite",
+            "arms, key tables, tag strings) + DEFAULTS: Default::default aggregates vs the constants the docs cite + value-before-table field order",
             "Narrow: for every field of the 8 config types an absent key takes the container default (or an equal "
             "field default), missing_field errors exist only for the one undocumented required field, Serialize and "
             "Deserialize agree on key->field and tag->variant and serialise every field unconditionally, and "
